@@ -1,4 +1,5 @@
 import FastorModel.Driver.Matmul
+import FastorModel.Driver.Einsum
 /-
   `fmodel`: line-protocol driver.  Reads one case per line on stdin, prints the model's observables
   for it.  The harness prints the implementation's observables for the same case in the same format.
@@ -10,6 +11,7 @@ def step (line : String) : String :=
   match line.trimAscii.toString.splitOn " " with
   | "matmul" :: rest => runMatmul (parseKV rest)
   | "tmatmul" :: rest => runTmatmul (parseKV rest)
+  | "einsum" :: rest => runEinsum (parseKV rest)
   | _ => "bad-op"
 
 partial def loop (h : IO.FS.Stream) (out : IO.FS.Stream) : IO Unit := do
